@@ -296,6 +296,13 @@ def former_admin_probe(r, ops, tags):
     Operations reserved to governance admins are then called with the same arguments by an outsider, by that account and
     finally by a real administrator; a vote of that account on an open proposal is tried too"""
     kind = r.choice(["frozen", "frozen", "logged-out", "rejected-candidate", "pending-candidate"])
+    # the proposal the account will try to vote on: opened AFTER it lost its role (it is no elector of it) or — seeding round 29 —
+    # BEFORE (it is in the proposal's electorate list, which is a snapshot of the moment of submission and is never trimmed)
+    early = kind in ("frozen", "logged-out") and r.random() < 0.6
+    if early:
+        ops.append("block bvm adm2 appchain FreezeAppchain s:c4 s:reason")
+        ops.append("q prop @adm2-0")
+        tags.add("former-admin:elector-of-an-open-proposal")
     if kind in ("frozen", "logged-out"):
         x = "adm3"
         call = "FreezeRole" if kind == "frozen" else "LogoutRole"
@@ -329,7 +336,8 @@ def former_admin_probe(r, ops, tags):
         ops.append(f"q obj role @{x}")
         tags.add("former-admin:own-logout-taken-back")
     # an open proposal to vote on
-    ops.append("block bvm adm2 appchain FreezeAppchain s:c4 s:reason")
+    if not early:
+        ops.append("block bvm adm2 appchain FreezeAppchain s:c4 s:reason")
     ops.append("q prop @adm2-0")
     for who in ("u0", x):
         ops.append("q dump")
